@@ -344,9 +344,18 @@ func runC17Dec(c *Ctx) Result {
 	g := &gen{t: t, o: genOpts{MaxDepth: 3, MaxWidth: 4, Escapes: true, Spaces: true, BigObject: false}}
 	nv := g.d(9)
 	var sb strings.Builder
+	prevOpen := false // previous value ends in a number/literal and no separator followed
 	for i := 0; i < nv; i++ {
-		sb.WriteString(genC17Value(g, kind))
-		sb.WriteString(c17Seps[g.d(len(c17Seps))])
+		v := genC17Value(g, kind)
+		if prevOpen && !strings.ContainsAny(v[:1], `{["`) {
+			// "12" "-5" glued together is one token or two depending on the reader of
+			// the grammar, not on chunking: keep value boundaries unambiguous
+			sb.WriteByte(' ')
+		}
+		sb.WriteString(v)
+		sep := c17Seps[g.d(len(c17Seps))]
+		sb.WriteString(sep)
+		prevOpen = sep == "" && !strings.ContainsAny(v[len(v)-1:], `}]"`)
 	}
 	tail := ""
 	if g.d(2) == 0 {
